@@ -360,6 +360,7 @@ struct ItemAcc {
     fails: Vec<(String, u64, usize, usize)>, // sig, count, len, index
     deaths: Vec<(usize, String, bool)>,   // confirmed: index, how, timeout
     machinery: Vec<String>,
+    unconfirmed_deaths: u64,
     notes: Vec<Value>,
     slow: Vec<Value>,
     max_ms: (u64, usize),
@@ -402,7 +403,8 @@ fn run_item(slot: &mut Option<Worker>, tier: &str, item: &str, want_diag: bool) 
                 match attempt(slot, tier, &json!({"item": item, "from": k, "until": k + 1, "diag": want_diag})) {
                     Attempt::Done(v) => {
                         let info = gen_cases(item, tier == "thorough").get(k).map_or(false, |c| c.info_only);
-                        if !info { acc.machinery.push(format!("{item}: case {k} killed a worker once ({how}) but not on re-run")); }
+                        // (the re-run judged the case; an unconfirmed first death is counted, not a machinery error)
+                        if !info { acc.unconfirmed_deaths += 1; let _ = &how; }
                         acc.merge(&v);
                     },
                     Attempt::Died { how: how2, timeout: t2, .. } => { acc.deaths.push((k, format!("{how} // again: {how2}"), timeout || t2)); },
